@@ -81,6 +81,15 @@ def rule_obligations():
             detail = "return is not tuple(<generator>)"
     obs.append(("get_functions_and_classes/one-__all__-entry-and-one-element-per-item", ok, detail))
     obs.append(hoist_obligation())
+    # G5: the symbol is named ensure_valid_identifier(<the very expression that goes into __all__>)
+    ge, _s, _p = extract.find_def("cdd.compound.gen_utils", "get_emit_kwarg")
+    ok5, detail5 = None, "get_emit_kwarg not found"
+    if ge is not None:
+        calls = [n for n in ast.walk(ge) if isinstance(n, ast.Call) and ast.unparse(n.func) == "ensure_valid_identifier"]
+        ok5 = len(calls) == 1 and len(calls[0].args) == 1 and ast.unparse(calls[0].args[0]) == "name_tpl.format(name=name)"
+        detail5 = ("the emitted symbol is named ensure_valid_identifier(name_tpl.format(name=name)); with the contract of ensure_valid_identifier (identifiers that are not keywords come back unchanged) "
+                   "that is the name listed in __all__") if ok5 else "get_emit_kwarg names the symbol by: %s" % [ast.unparse(c)[:80] for c in calls]
+    obs.append(("get_emit_kwarg/symbol-named-by-the-template-through-ensure_valid_identifier", ok5, detail5))
     return obs
 
 
@@ -118,9 +127,9 @@ def rule_replay(name):
         r = guard_case(0)  # the CLI onto an existing file, three spellings of the path
         bad = [w for k, w in r if k != "raises"]
         return {"case": ["cli", "gen", 1, None, False], "what": bad[0]} if bad else None
-    if name.startswith("get_functions_and_classes/"):
+    if name.startswith("get_functions_and_classes/") or name.startswith("get_emit_kwarg/"):
         # up to 8 entries: the last three have a private, a lower-case and a one-letter name
-        for case in (("class", "{name}Gen", 2, None, False), ("class", "Cfg{name}", 12, None, False), ("class", "{name}", 12, None, False), ("argparse", "{name}Gen", 2, None, False)):
+        for case in (("class", "{name}Gen", 2, None, False), ("json_schema", "{name}", 12, None, False), ("class", "Cfg{name}", 12, None, False), ("class", "{name}", 12, None, False), ("argparse", "{name}Gen", 2, None, False)):
             bad = [w for k, w in gen_case(case) if k != "raises"]
             if bad:
                 return {"case": list(case), "what": bad[0]}
@@ -266,9 +275,20 @@ def bounded(tier):
 
 def main(tier, write_baseline=False):
     run = Run("C19", tier, "other", checker_cmd=common.checker_cmd("C19", tier))
-    run.trusted_base.update(["rule engine of checks/C19.py over the real ast (guard dominance, parameter frame, generator shape)"])
+    run.trusted_base.update(["rule engine of checks/C19.py over the real ast (guard dominance, parameter frame, generator shape)", "cddvc E1 (regular-expression membership for the identifier alphabet; iskeyword / isdigit uninterpreted)"])
     refuted = []
     rule_inputs = {}
+    from cddvc import e1
+
+    for o in e1.run_contracts(run, "contracts.C19"):
+        # ensure_valid_identifier no longer returns plain identifiers unchanged: replay the identity template over names of every kind
+        fi = None
+        for case in (("class", "{name}", 12, None, False), ("json_schema", "{name}", 12, None, False)):
+            bad = [w for k, w in gen_case(case) if k != "raises"]
+            if bad:
+                fi = {"case": list(case), "what": bad[0][:300]}
+                break
+        run.violation(o["name"], "obligation refuted by %s on path %s" % (o["backend"], " ".join(o["trace"])), failing_input=fi, solver_output={"model": o["model"], "smt2": (o["smt2"] or "")[:3000]})
     for name, ok, detail in rule_obligations():
         if ok is False and not name.startswith("gen_module/"):
             # a shape rule no longer matches.  That alone is not a violation (the code may have been rewritten in an
